@@ -8,12 +8,16 @@ use crate::spec::{Naming, Spec};
 use proptest::collection::vec;
 use proptest::prelude::*;
 
-pub const UPPER_POOL: [&str; 28] = [
+pub const UPPER_POOL: [&str; 36] = [
     "A", "B", "Foo", "Bar", "X1", "_0", "__", "_A", "Z", "Expr", "Node", "State", "S", "T", "Tok", "Token", "Eof", "Start_", "Structs", "Enum_",
     "Terminal_", "_1_0", "Aa", "AB", "Q", "Action", "_9Z", "R0",
+    // names that differ only in case, or by a digit suffix
+    "FOO", "FoO", "AA", "Ab", "TOK", "NODE", "State2", "A2",
 ];
-pub const FIELD_POOL: [&str; 20] =
-    ["a", "b", "foo", "x1", "_0", "__", "_a", "z", "inner", "left", "right", "nodes", "states", "t0", "node", "n", "t", "start_", "_1", "aB"];
+pub const FIELD_POOL: [&str; 24] = [
+    "a", "b", "foo", "x1", "_0", "__", "_a", "z", "inner", "left", "right", "nodes", "states", "t0", "node", "n", "t", "start_", "_1", "aB", "ab", "fOO",
+    "fOo", "a2",
+];
 
 fn unique(base: &str, taken: &mut Vec<String>) -> String {
     let mut name = base.to_string();
@@ -64,17 +68,29 @@ pub fn decorate(spec: &Spec, ch: &mut Chooser, o: DecorOpts) -> Naming {
     }
     if o.attrs && !ch.is_trivial() {
         let mut id = 0;
+        // a fresh marked attribute, or (1 in 5) a byte-identical repeat of the previous one on the same declaration,
+        // or (1 in 10) a short unmarked attribute from a tiny pool (so that equal texts also occur on different declarations)
+        let mut next_attr = |ch: &mut Chooser, list: &mut Vec<String>, id: &mut usize| {
+            let k = ch.pick(10);
+            if k < 2 && !list.is_empty() {
+                let prev = list.last().unwrap().clone();
+                list.push(prev);
+            } else if k == 2 {
+                list.push(["#[a]", "#[]", "#[derive(Debug)]", "#[x(y)]"][ch.pick(4)].to_string());
+            } else {
+                list.push(layout::gen_attr(ch, *id).0);
+                *id += 1;
+            }
+        };
         for a in nm.nt_attrs.iter_mut() {
             let n = [0, 0, 1, 1, 2, 3, 4][ch.pick(7)];
             for _ in 0..n {
-                a.push(layout::gen_attr(ch, id).0);
-                id += 1;
+                next_attr(ch, a, &mut id);
             }
         }
         let n = [0, 1, 2, 4][ch.pick(4)];
         for _ in 0..n {
-            nm.term_attrs.push(layout::gen_attr(ch, id).0);
-            id += 1;
+            next_attr(ch, &mut nm.term_attrs, &mut id);
         }
     }
     if o.types && !ch.is_trivial() {
